@@ -1153,7 +1153,9 @@ impl TDigestView<'_> {
         if weight < 1. {
             return Some(self.min);
         }
-        if weight > centroids_weight - 1. {
+        if weight >= centroids_weight - 1. {
+            // at exactly W - 1 the right-tail formula below evaluates to max as well, except for a
+            // last centroid of weight 2 where it divides 0 by 0
             return Some(self.max);
         }
         let first_weight = self.centroids[0].weight();
